@@ -7,16 +7,76 @@ theorem totalSamples_append (a b : List Inst) : totalSamples (a ++ b) = totalSam
   | nil => simp [totalSamples]
   | cons x xs ih => simp [totalSamples, ih]; omega
 
+theorem totalSamples_setReg (k : Nat) (l : List Inst) : totalSamples (setReg k l) = totalSamples l := by
+  induction l with
+  | nil => rfl
+  | cons x xs ih => simp only [setReg]; split <;> simp [totalSamples, ih]
+
+theorem totalSamples_clearReg (k : Nat) (l : List Inst) : totalSamples (clearReg k l) = totalSamples l := by
+  induction l with
+  | nil => rfl
+  | cons x xs ih => simp only [clearReg]; split <;> simp [totalSamples, ih]
+
 theorem totalSamples_regInsts (l : List Inst) (k : Nat) : totalSamples (regInsts l k) = totalSamples l := by
   unfold regInsts
   split
-  · rfl
+  · exact totalSamples_setReg k l
   · simp [totalSamples_append, totalSamples]
 
-theorem length_regInsts (l : List Inst) (k : Nat) :
-    (regInsts l k).length = if (findInst k l).isSome then l.length else l.length + 1 := by
-  unfold regInsts
-  split <;> simp
+theorem regCount_cons (x : Inst) (xs : List Inst) :
+    regCount (x :: xs) = (if x.registered then 1 else 0) + regCount xs := by
+  simp only [regCount, List.filter, instRegistered]
+  cases x.registered <;> simp <;> omega
+
+theorem regCount_append_new (l : List Inst) (k : Nat) :
+    regCount (l ++ [{ key := k, samples := [], registered := true }]) = regCount l + 1 := by
+  induction l with
+  | nil => rfl
+  | cons x xs ih => simp only [List.cons_append, regCount_cons, ih]; omega
+
+theorem regCount_setReg (k : Nat) (l : List Inst) (i : Inst) (h : findInst k l = some i) :
+    regCount (setReg k l) = if i.registered then regCount l else regCount l + 1 := by
+  induction l with
+  | nil => simp [findInst] at h
+  | cons x xs ih =>
+    simp only [findInst] at h
+    simp only [setReg]
+    split
+    · rename_i hk
+      simp only [hk, if_true, Option.some.injEq] at h
+      subst h
+      simp only [regCount_cons]
+      cases x.registered <;> simp <;> omega
+    · rename_i hk
+      simp only [hk, if_false] at h
+      simp only [regCount_cons, ih h]
+      cases i.registered <;> cases x.registered <;> simp <;> omega
+
+theorem regCount_regInsts (l : List Inst) (k : Nat) :
+    regCount (regInsts l k) = if isReg l k then regCount l else regCount l + 1 := by
+  unfold regInsts isReg
+  cases h : findInst k l with
+  | none => simp [regCount_append_new]
+  | some i => simp only [Option.isSome_some, if_true]; exact regCount_setReg k l i h
+
+theorem regCount_clearReg_le (k : Nat) (l : List Inst) : regCount (clearReg k l) ≤ regCount l := by
+  induction l with
+  | nil => simp [clearReg]
+  | cons x xs ih =>
+    simp only [clearReg]
+    split
+    · simp only [regCount_cons]; cases x.registered <;> simp
+    · simp only [regCount_cons]; omega
+
+theorem regCount_pushSample (k sn : Nat) (l : List Inst) : regCount (pushSample k sn l) = regCount l := by
+  induction l with
+  | nil => rfl
+  | cons x xs ih => simp only [pushSample]; split <;> simp [regCount_cons, ih]
+
+theorem regCount_popFront (k : Nat) (l : List Inst) : regCount (popFront k l) = regCount l := by
+  induction l with
+  | nil => rfl
+  | cons x xs ih => simp only [popFront]; split <;> simp [regCount_cons, ih]
 
 theorem length_pushSample (k sn : Nat) (l : List Inst) : (pushSample k sn l).length = l.length := by
   induction l with
@@ -75,14 +135,14 @@ theorem totalSamples_popFront {k : Nat} {l : List Inst} {i : Inst} (h : findInst
       omega
 
 theorem samplesOfKey_regInsts (l : List Inst) (k : Nat) : samplesOfKey (regInsts l k) k = samplesOfKey l k := by
-  rcases findInst_regInsts l k with ⟨i, h1, h2, _⟩ | ⟨h1, _, h3⟩
-  · rw [h2]
+  rcases findInst_regInsts l k with ⟨i, h1, _, h3⟩ | ⟨h1, _, h3⟩
+  · simp [samplesOfKey, h1, h3]
   · simp [samplesOfKey, h1, h3]
 
 /-- the three resource limits hold -/
 def LimInv (s : St) : Prop :=
   (∀ m, s.qos.maxSamples = some m → totalSamples s.insts ≤ m) ∧
-  (∀ m, s.qos.maxInstances = some m → s.insts.length ≤ m) ∧
+  (∀ m, s.qos.maxInstances = some m → regCount s.insts ≤ m) ∧
   (∀ m, s.qos.maxSpi = some m → LenOk m s.insts)
 
 /-- DataWriterQos::is_consistent, plus depth >= 1 (which is_consistent does not check) -/
@@ -112,7 +172,7 @@ theorem entWrite_limInv (s : St) (k : Nat) (v : Int) (ts now : Int) (hq : QosOk 
       omega
     · intro m hm
       rw [hqos] at hm
-      rw [hins, length_pushSample, length_regInsts]
+      rw [hins, regCount_pushSample, regCount_regInsts]
       have := h2 m hm
       split
       · exact this
@@ -148,7 +208,7 @@ theorem evict_limInv (s : St) (k sn : Nat) (h : LimInv s) : LimInv (evict s k sn
   obtain ⟨h1, h2, h3⟩ := h
   refine ⟨?_, ?_, ?_⟩
   · intro m hm; exact Nat.le_trans (totalSamples_popFront_le k s.insts) (h1 m hm)
-  · intro m hm; simp only [evict, length_popFront]; exact h2 m hm
+  · intro m hm; simp only [evict, regCount_popFront]; exact h2 m hm
   · intro m hm; exact popFront_lenOk m k _ (h3 m hm)
 
 /-- invariant of every run: the limits hold and (KEEP_LAST) no instance exceeds the depth -/
@@ -244,5 +304,17 @@ theorem step_winv (s : St) (e : Ev) (h : WInv s) : WInv (step s e).1 := by
     exact winv_of_frame h2 (poke_frame _ now).1 (poke_frame _ now).2.1
   | matchReader rid rel tl =>
     exact winv_of_frame h (matchReader_frame s rid rel tl).1 (matchReader_frame s rid rel tl).2.1
+  | unregister k ts now =>
+    have h0 : WInv (removeStale s now) := winv_of_frame h (removeStale_frame s now).1 (removeStale_frame s now).2.1
+    have hu := unregisterW_frame (removeStale s now) k ts now
+    simp only [step]
+    rcases hu.2.2.2 with hi | hi
+    · exact winv_of_frame h0 hu.1 hi
+    · obtain ⟨h1, ⟨h2, h3, h4⟩, h5⟩ := h0
+      refine ⟨by rw [hu.1]; exact h1, ⟨?_, ?_, ?_⟩, ?_⟩
+      · intro m hm; rw [hu.1] at hm; rw [hi, totalSamples_clearReg]; exact h2 m hm
+      · intro m hm; rw [hu.1] at hm; rw [hi]; exact Nat.le_trans (regCount_clearReg_le k _) (h3 m hm)
+      · intro m hm; rw [hu.1] at hm; rw [hi]; exact clearReg_lenOk m k _ (h4 m hm)
+      · intro d hd; rw [hu.1] at hd; rw [hi]; exact clearReg_lenOk d k _ (h5 d hd)
 
 end DustVerif.Wrt
